@@ -143,6 +143,21 @@ func groupRoot(c *fw.Case, withID bool) (*model.Root, string, error) {
 			ks.S[i] = model.StrP(fmt.Sprintf("k%d", v%997))
 		}
 		f = &model.Frame{Cols: []*model.Col{ki, ks}}
+		if rng.Intn(2) == 0 {
+			// null string keys and NaN float keys (their hash is random when nulls are not equal to each other)
+			kf := model.NewCol("kf", model.KFloat, rows)
+			for i := 0; i < rows; i++ {
+				kf.F[i] = float64(ki.I[i]%1000) / 4
+				if rng.Intn(30) == 0 {
+					kf.F[i] = math.NaN()
+				}
+				if rng.Intn(30) == 0 {
+					ks.S[i] = nil
+				}
+			}
+			f.Cols = append(f.Cols, kf)
+			c.Count("huge_frames_with_null_keys", 1)
+		}
 	}
 	if f == nil && c.No%200 == 51 {
 		// very wide keys: dozens of bool columns whose rows differ in a single, late column
@@ -887,6 +902,20 @@ func runC05(c *fw.Case) {
 	allCols := sh.Names()
 	for k := 0; k < 4; k++ {
 		keys := pickKeys(rng, sh, true)
+		if len(keys) >= 1 && len(keys) <= 6 && rng.Intn(6) == 0 {
+			// a key column named more than once: the key is the same set of columns
+			dup := keys[rng.Intn(len(keys))]
+			at := rng.Intn(len(keys) + 1)
+			if rng.Intn(2) == 0 {
+				for i, k := range keys {
+					if k == dup {
+						at = i + 1 // directly after its first occurrence, before the remaining columns
+					}
+				}
+			}
+			keys = append(append(append([]string{}, keys[:at]...), dup), keys[at:]...)
+			c.Count("key_lists_naming_a_column_twice", 1)
+		}
 		nullEq := rng.Intn(2) == 0
 		desc := fmt.Sprintf("Distinct(Columns(%q), Null(%v))", keys, nullEq)
 		confs = append(confs, desc)
